@@ -215,11 +215,50 @@ def prove(ctx, prop_mods):
 
 # ---------------------------------------------------------------- running model and implementation
 
+def _run_once(exe, mode, lines, timeout):
+    """one process over `lines`; returns (outputs so far, status) with status in ok / crash / hang"""
+    p = subprocess.Popen([exe] + mode, stdin=subprocess.PIPE, stdout=subprocess.PIPE, stderr=subprocess.PIPE, env=ENV)
+    try:
+        so, se = p.communicate(("\n".join(lines) + "\n").encode("utf-8"), timeout=timeout)
+        status = "ok" if p.returncode == 0 else "crash"
+    except subprocess.TimeoutExpired:
+        p.kill()
+        so, se = p.communicate()
+        status = "hang"
+    got = so.decode("utf-8", "replace").split("\n")
+    if got and got[-1] == "":
+        got.pop()
+    if status == "ok" and len(got) != len(lines):
+        status = "crash"
+    return got, status, se.decode("utf-8", "replace").strip()[-200:], p.returncode
+
+
 def _run_chunk(args):
-    exe, mode, inp, outp = args
-    with open(inp, "rb") as fi, open(outp, "wb") as fo:
-        p = subprocess.run([exe] + mode, stdin=fi, stdout=fo, stderr=subprocess.PIPE, env=ENV)
-    return p.returncode, p.stderr.decode("utf-8", "replace")[-2000:]
+    """Feeds a chunk to one process.  If the process dies or exceeds its time budget, the line it stopped at is
+    re-run ALONE to confirm (output buffering may hide how far it got); a confirmed line is marked
+    `CRASH ...` / `HANG ...` and the rest of the chunk continues in a fresh process."""
+    exe, mode, lines = args
+    out, start = [], 0
+    while start < len(lines):
+        rest = lines[start:]
+        got, status, err, rc = _run_once(exe, mode, rest, 120 + 0.05 * len(rest))
+        if status == "ok":
+            out += got
+            break
+        got = got[:len(rest)]
+        out += got
+        k = start + len(got)                 # first line without an answer
+        if k >= len(lines):
+            break
+        g1, st1, err1, rc1 = _run_once(exe, mode, [lines[k]], 20)
+        if st1 == "ok":
+            out.append(g1[0])
+        elif st1 == "hang":
+            out.append("HANG no answer within 20 s (process killed)")
+        else:
+            out.append(f"CRASH rc={rc1} {err1}")
+        start = k + 1
+    return out
 
 
 def run_lines(exe, mode, lines, tag, work, nproc=NPROC):
@@ -231,29 +270,13 @@ def run_lines(exe, mode, lines, tag, work, nproc=NPROC):
         return []
     k = max(1, min(nproc, (n + 199) // 200))
     size = (n + k - 1) // k
-    jobs, wants = [], []
-    for i in range(k):
-        chunk = lines[i * size:(i + 1) * size]
-        if not chunk:
-            continue
-        inp = os.path.join(work, f"{tag}.{i}.in")
-        outp = os.path.join(work, f"{tag}.{i}.out")
-        with open(inp, "w", encoding="utf-8", newline="\n") as f:
-            f.write("\n".join(chunk) + "\n")
-        jobs.append((exe, mode, inp, outp))
-        wants.append(len(chunk))
+    jobs = [(exe, mode, lines[i * size:(i + 1) * size]) for i in range(k) if lines[i * size:(i + 1) * size]]
     with ThreadPoolExecutor(max_workers=len(jobs)) as ex:
         res = list(ex.map(_run_chunk, jobs))
     out = []
-    for (rc, err), (_, _, inp, outp), want in zip(res, jobs, wants):
-        got = open(outp, encoding="utf-8", errors="replace", newline="\n").read().split("\n")
-        if got and got[-1] == "":
-            got.pop()
-        if rc != 0 or len(got) != want:
-            # the process died on some line (abort / stack overflow): mark the rest
-            got = got[:want] + [f"CRASH rc={rc} {err.strip()[-200:]}"] * (want - len(got))
-        out += got
-        os.remove(inp); os.remove(outp)
+    for part, (_, _, chunk) in zip(res, jobs):
+        assert len(part) == len(chunk), (len(part), len(chunk))
+        out += part
     return out
 
 
